@@ -1,4 +1,5 @@
 import QVerif.Lemmas.Encoder
+import QVerif.Lemmas.EncoderSupp
 
 /-!
 # C15 — the JSSP encoding is total, complete and injective
@@ -39,6 +40,25 @@ theorem hamiltonian_ok (pen : Penalties) (inst : EInst) (limit : Nat) (bits : Bi
     by_cases h0 : nQubits vars = 0
     · simp [h0]
     · simp only [h0, ↓reduceIte, Except.ok.injEq, exists_eq', true_iff]; omega
+
+/-- **the Hamiltonian is an operator on exactly the reported qubits**: whenever the limit is long enough and at least one
+qubit is needed, the operator the encoder builds (the sum of products of `I`/`Z` strings of `Model/EncoderPoly.lean`) exists,
+every `Z` in every one of its terms acts on a qubit below `n_qubits`, and on every basis state its value is the eigenvalue
+`energy` that the theorems of C01/C02 are about -/
+theorem hamiltonian_on_n_qubits (pen : Penalties) (inst : EInst) (limit : Nat) (vars : List (List Var))
+    (h : prepare inst limit = .ok vars) (h1 : 1 ≤ nQubits vars) :
+    ∃ H, energyPoly pen inst limit = .ok H ∧ Supp H (nQubits vars) ∧
+      ∀ bits, energy pen inst limit bits = .ok (evalPoly bits H) := by
+  refine ⟨energyPolyOf pen inst vars limit, ?_, energyPolyOf_supp pen inst limit vars h, ?_⟩
+  · unfold energyPoly
+    rw [h]
+    simp only
+    rw [if_neg (by omega)]
+  · intro bits
+    unfold energy
+    rw [h]
+    simp only
+    rw [if_neg (by omega), eval_energyPolyOf]
 
 /-- **decoding is total**: every bitstring yields one entry per operation (scheduled or not) -/
 theorem translate_total (vars : List (List Var)) (bits : Bits) :
@@ -219,5 +239,12 @@ example : (prepare exInst 4).toOption.map (fun vs => translate vs [true, false, 
 -- a variable window 0 1 has two domain walls: unscheduled
 example : (prepare exInst 4).toOption.map (fun vs => translate vs [false, true, false, false, false, false]) =
     some [[none, some 1], [some 0, some 1]] := by decide +kernel
+
+-- the operator of the example: exists, is supported on the 6 qubits, and evaluates to the eigenvalue function
+example : (match energyPoly ⟨300, 100, 100, 100, 0⟩ exInst 4 with
+    | .ok H => decide (H.all (fun t => t.2.all (· < 6))) &&
+               decide (some (evalPoly [true, false, false, false, false, true] H) =
+                       (energy ⟨300, 100, 100, 100, 0⟩ exInst 4 [true, false, false, false, false, true]).toOption)
+    | .error _ => false) = true := by decide +kernel
 
 end QVerif.Encoder
